@@ -187,13 +187,47 @@ def _locate_whole_path(ctx, index, rule="C13.locate"):
         g for g in index.nontest_funcs() if g.cls is not None and g.cls.rpartition(".")[2] == "RewriteAtQuery" and g.outer is None
     ]
     n_cmp = 0
+    # the comparison may sit in a helper the location is handed to (`self._is_at(node._location, self.search)`):
+    # the helper's parameter that receives it then stands for a `_location`
+    handed = {}  # qual -> parameter names holding a location
+    by_qual = {g.qual: g for g in scope}
+    work = list(scope)
+    while work:
+        g = work.pop()
+        mine = handed.get(g.qual, set())
+        for c in iter_own(g.node):
+            if not isinstance(c, ast.Call):
+                continue
+            h = None
+            if isinstance(c.func, ast.Attribute) and isinstance(c.func.value, ast.Name) and c.func.value.id in ("self", "cls") and g.cls:
+                h = index.funcs.get(g.qual.rpartition(".")[0] + "." + c.func.attr)
+                skip = 0 if h is None or any(norm(d).endswith("staticmethod") for d in h.node.decorator_list) else 1
+            if h is None:
+                h = index.funcs.get(index.callee(g.mod, c, g) or "")
+                skip = 0
+            if h is None or h.mod.name.startswith("cdd.tests"):
+                continue
+            params = [a.arg for a in h.node.args.posonlyargs + h.node.args.args][skip:]
+            pairs = [(params[i], a) for i, a in enumerate(c.args) if i < len(params)] + [(k.arg, k.value) for k in c.keywords if k.arg]
+            for pn, a in pairs:
+                a = expand_aliases(g, a)
+                if "_location" in norm(a) or {x.id for x in ast.walk(a) if isinstance(x, ast.Name)} & mine:
+                    if pn not in handed.setdefault(h.qual, set()):
+                        handed[h.qual].add(pn)
+                        if h.qual not in by_qual:
+                            by_qual[h.qual] = h
+                            scope.append(h)
+                        work.append(h)
     for g in scope:
+        mine = handed.get(g.qual, set())
         for c in iter_own(g.node):
             if not (isinstance(c, ast.Compare) and len(c.ops) == 1):
                 continue
             sides = [expand_aliases(g, c.left), expand_aliases(g, c.comparators[0])]
-            if not any("_location" in norm(x) for x in sides):
+            if not any("_location" in norm(x) or {y.id for y in ast.walk(x) if isinstance(y, ast.Name)} & mine for x in sides):
                 continue
+            if all(isinstance(x, ast.Constant) or (isinstance(x, ast.Call) and norm(x.func) == "len") for x in sides if not isinstance(x, ast.Name)) and not any(isinstance(x, ast.Name) and x.id in mine for x in sides) and not any("_location" in norm(x) and not (isinstance(x, ast.Call) and norm(x.func) == "len") for x in sides):
+                continue  # a comparison of lengths only
             n_cmp += 1
             suffix = [sl for x in sides for sl in ast.walk(x) if isinstance(sl, ast.Slice) and sl.lower is not None]
             eq = isinstance(c.ops[0], (ast.Eq, ast.NotEq))
